@@ -1,5 +1,5 @@
 (* Properties/C16.v — Events are emitted exactly once per occurrence and tell a consistent story. *)
-From FS Require Import Model.Exec Proofs.ExecProofs Proofs.ExecStats Proofs.BreakerProofs Proofs.ExecRetryEvents Proofs.ExecCheckerProofs Corr.C16.
+From FS Require Import Model.Exec Proofs.ExecProofs Proofs.ExecStats Proofs.BreakerProofs Proofs.ExecRetryEvents Proofs.ExecCheckerProofs Proofs.ExecEventsProofs Corr.C16.
 
 (* executor: one success-or-failure event matching SuccessAll, then one done event, both carrying the returned result *)
 Theorem C16_completion_events : forall fuel stack w,
@@ -71,6 +71,55 @@ Theorem C16_rate_limit_event_without_refusal_before_fix :
   events true = [2048; 4096; 7000] /\ events false = [2048; 4096].
 Proof. vm_compute. auto. Qed.
 Print Assumptions C16_rate_limit_event_without_refusal_before_fix.
+
+(* OnFull fires exactly when the bulkhead refuses (any inner layer, any world): an execution that arrives cancelled, an
+   admitted one, and one whose wait is interrupted by a cancellation add no event of this layer; a full bulkhead that
+   does not wait, or whose wait runs to its end, reports ErrFull with exactly one OnFull *)
+Theorem C16_full_event_only_on_refusal : forall pos inst mw (inner : layer) c w,
+  let cap := fst (nth inst (w_bulkheads w) (0, 0)) in
+  let held := snd (nth inst (w_bulkheads w) (0, 0)) in
+  let setheld (w : world) (h : Z) :=
+    set_insts w (w_breakers w) (w_limiters w) (upd inst (fun p => (fst p, h)) (w_bulkheads w)) (w_caches w) in
+  (forall e, copy_err w c = Some e -> bulkhead_layer pos inst mw inner c w = (failure_result e, w))
+  /\ (copy_err w c = None -> held < cap ->
+      kps (snd (bulkhead_layer pos inst mw inner c w)) = kps (snd (inner c (setheld w (held + 1)))))
+  /\ (copy_err w c = None -> cap <= held -> mw = 0 ->
+      fst (bulkhead_layer pos inst mw inner c w) = failure_result EFull
+      /\ kps (snd (bulkhead_layer pos inst mw inner c w)) = (KFull, pos) :: kps w)
+  /\ (copy_err w c = None -> cap <= held -> mw <> 0 ->
+      let i := fst (wait w mw (Some c)) in let w1 := snd (wait w mw (Some c)) in
+      (i = true -> kps (snd (bulkhead_layer pos inst mw inner c w)) = kps w1
+                   /\ fst (bulkhead_layer pos inst mw inner c w)
+                      = failure_result (match copy_err w1 c with Some e => e | None => EOther end))
+      /\ (i = false -> fst (bulkhead_layer pos inst mw inner c w) = failure_result EFull
+                       /\ kps (snd (bulkhead_layer pos inst mw inner c w)) = (KFull, pos) :: kps w1)).
+Proof. exact bulkhead_full_event_only_on_refusal. Qed.
+Print Assumptions C16_full_event_only_on_refusal.
+
+(* a retry policy's verdict on a failed attempt (any world, any ledger): OnFailure always; OnAbort exactly when the outcome
+   matches an abort condition; OnRetriesExceeded exactly when the budget (max retries or max duration) is exhausted and
+   the outcome is not an abort; either of them ends the policy's run (Done), and exhaustion is remembered in the ledger,
+   after which the retry loop returns without consulting the policy again -- so neither fires twice in one run *)
+Theorem C16_abort_and_exceeded_events_in_their_situation : forall cfg pos c r w,
+  let failed := rs_failed (get_rstate w pos) + 1 in
+  let exceeded := (negb (r_max_retries cfg =? -1) && (r_max_retries cfg <? failed))
+                  || (negb (r_max_duration cfg =? 0) && (r_max_duration cfg <? w_now w - w_start w)) in
+  let abortable := is_abortable (r_abort cfg) (pr_out r) in
+  kps (snd (retry_on_failure cfg pos c r w)) =
+    (if exceeded && negb abortable then [(KRetriesExceeded, pos)] else [])
+    ++ (if abortable then [(KAbort, pos)] else []) ++ (KPolFailure, pos) :: kps w
+  /\ (abortable || exceeded = true -> pr_done (fst (retry_on_failure cfg pos c r w)) = true)
+  /\ rs_exceeded (get_rstate (snd (retry_on_failure cfg pos c r w)) pos) = exceeded.
+Proof. exact retry_failure_events. Qed.
+Print Assumptions C16_abort_and_exceeded_events_in_their_situation.
+
+(* OnTimeoutExceeded is logged by the timer callback, which is also what makes the Timeout report ErrExceeded
+   (C07_layer_outcome: the layer returns ErrExceeded exactly when its scope is marked fired) *)
+Theorem C16_timeout_event_iff_fired : forall w s, (s < length (w_scopes w))%nat ->
+  kps (fire_timeout w s) = (KTimeoutExceeded, sc_pos (get_scope w s)) :: kps w
+  /\ sc_fired (get_scope (fire_timeout w s) s) = true.
+Proof. exact timeout_event_iff_fired_step. Qed.
+Print Assumptions C16_timeout_event_iff_fired.
 
 (* breaker state-change events form a connected path from the initial state, specific listener then generic *)
 Theorem C16_breaker_events_form_path : forall S (I : stats_impl S) c h s,
